@@ -120,6 +120,16 @@ def handleEqual (req case : Json) : Except String Json := do
     ("branches", Json.arr #[Json.str (if plain a && plain b then "equal:plain" else "equal:other")]),
     ("checked_steps", toJson (1 : Nat))]
 
+/-- which branches of the model a run went through (for the evidence's coverage table) -/
+partial def branchesOf : List Item → List String
+  | [] => []
+  | (.call _ evs fl _ ch res) :: rest =>
+    s!"model:call:{if fl then "flush" else "direct"}:{evs.length}ev:{if res == .ok then "ok" else "raised"}" ::
+      (branchesOf ch ++ branchesOf rest)
+  | (.stmt k _ _ _ b tr _ ch res) :: rest =>
+    s!"model:{k}:{if b then "batched" else "open"}{if tr then ":triggering" else ""}:{if res == .ok then "ok" else "raised"}" ::
+      (branchesOf ch ++ branchesOf rest)
+
 def handle (req : Json) : Except String Json := do
   let case ← req.getObjVal? "case"
   if (getStr case "kind").toOption == some "equal" then return ← handleEqual req case
@@ -164,7 +174,8 @@ def handle (req : Json) : Except String Json := do
   let optJ : Option String → Json := fun | some s => Json.str s | none => Json.null
   let anyOof := revRuns.any fun (_, r, _, _) => r == Res.oof
   return Json.mkObj [("model", model), ("applicable", Json.bool (!anyOof)),
-    ("spec_impl", optJ specI), ("spec_model", optJ specM), ("branches", Json.arr #[]),
+    ("spec_impl", optJ specI), ("spec_model", optJ specM),
+    ("branches", Json.arr ((revRuns.flatMap fun (_, _, _, o) => branchesOf o).eraseDups.map Json.str).toArray),
     ("checked_steps", toJson implSteps.length)]
 
 def main : IO Unit := serve handle
